@@ -38,6 +38,12 @@ CLAIMED.update({
     "C15": ("floor/ceil/trunc/fract/abs/neg/predicates/magnitude from the MIR for all coefficients and scales, num-traits wrappers on the feature MIR; "
             "i128_magnitude and Decimal::magnitude bit-precisely for all inputs by two Kani harnesses.", "2 C15"),
 })
+CLAIMED.update({
+    "C12": ("Float::from_decimal for f64 and f32 from the MIR, per (scale, leading-zero class, sign): returned bit pattern decoded and checked against the "
+            "nearest / ties-to-even inequalities over exact integers; the integral-or-zero branch is taken exactly when documented.", "2 C12"),
+    "C13": ("TryFrom<f64|f32> for every bit pattern, split by sign and biased exponent (fraction symbolic): NaN/inf/overflow errors, exact integral results, "
+            "half-even rounding to 18 digits with normalisation; digit loop with a proved invariant cut per iteration; no panic path.", "2 C13"),
+})
 NA = {}
 
 def main():
